@@ -42,6 +42,7 @@ package ggql
 //@   ensures[no-byte-keeps-position]{C07} old(p.onDeck) == 0 && !old(p.eof) && #rd == old(#rd) ==> p.line == startLine(old(p.line)) && p.col == startCol(old(p.line), old(p.col))
 //@   ensures[at-most-one-byte]{C07} #rd <= old(#rd) + 1
 //@   assigns fresh, p.onDeck, p.eof, p.line, p.col, #rd
+//@   check frame {C01}
 //@   loop 0: invariant[ok] scanOk(p) && p.onDeck == 0 && !p.eof && #rd == old(#rd)
 //@           invariant[eof-discovered] p.eof && !old(p.eof) ==> scanM(p) < old(scanM(p))
 //@           decreases 0
@@ -55,6 +56,7 @@ package ggql
 //@   ensures[cost] scanM(p) <= old(scanM(p)) + 1
 //@   ensures[set] p.onDeck == b && p.eof == old(p.eof) && p.line == old(p.line) && p.col == old(p.col)
 //@   assigns p.onDeck
+//@   check frame {C01}
 
 //@ func (*parser).skipBOM
 //@   props C03
@@ -63,6 +65,7 @@ package ggql
 //@   ensures[ok] scanOk(p)
 //@   ensures[no-growth] scanM(p) <= old(scanM(p))
 //@   assigns fresh, p.onDeck, p.eof, p.line, p.col, #rd
+//@   check frame {C01}
 //@   loop 0: invariant[ok] scanOk(p) && scanM(p) <= old(scanM(p))
 //@           invariant[bounds] rangeindex+1 <= 2
 //@           decreases 2 - rangeindex
@@ -81,6 +84,7 @@ package ggql
 //@   ensures[zero-means-end] err == nil && b == 0 ==> p.eof || scanM(p) < old(scanM(p))
 //@   ensures[progress-or-same] err == nil ==> scanM(p) < old(scanM(p)) || (p.onDeck == old(p.onDeck) && p.line == old(p.line) && p.col == old(p.col) && p.eof == old(p.eof))
 //@   assigns fresh, p.onDeck, p.eof, p.line, p.col, #rd
+//@   check frame {C01}
 //@   loop 0: invariant[ok] scanOk(p) && scanM(p) <= old(scanM(p))
 //@           invariant[eof-discovered] p.eof && !old(p.eof) ==> scanM(p) < old(scanM(p))
 //@           invariant[progress-or-first] scanM(p) < old(scanM(p)) || (p.onDeck == old(p.onDeck) && p.line == old(p.line) && p.col == old(p.col) && p.eof == old(p.eof))
@@ -101,6 +105,7 @@ package ggql
 //@   ensures[progress] err == nil && len(tok) > 0 ==> scanM(p) < old(scanM(p))
 //@   ensures[empty-unchanged] err == nil && len(tok) == 0 ==> scanM(p) < old(scanM(p)) || (p.onDeck == old(p.onDeck) && p.line == old(p.line) && p.col == old(p.col))
 //@   assigns fresh, p.onDeck, p.eof, p.line, p.col, #rd, BUF_len
+//@   check frame {C01}
 //@   loop 0: invariant[ok] scanOk(p) && scanM(p) <= old(scanM(p))
 //@           invariant[eof-discovered] p.eof && !old(p.eof) ==> scanM(p) < old(scanM(p))
 //@           invariant[written] buflen(addrof(buf)) >= 0 && (buflen(addrof(buf)) > 0 ==> scanM(p) < old(scanM(p)))
@@ -116,6 +121,7 @@ package ggql
 //@   ensures[no-growth] scanM(p) <= old(scanM(p))
 //@   ensures[progress] err == nil && (old(p.onDeck) == 45 || (48 <= old(p.onDeck) && old(p.onDeck) <= 57)) ==> scanM(p) < old(scanM(p))
 //@   assigns fresh, p.onDeck, p.eof, p.line, p.col, #rd, BUF_len
+//@   check frame {C01}
 //@   loop 0: invariant[ok] scanOk(p) && scanM(p) <= old(scanM(p))
 //@           invariant[written] buflen(addrof(buf)) >= 0 && (buflen(addrof(buf)) > 0 ==> scanM(p) < old(scanM(p)))
 //@           invariant[nothing-yet] buflen(addrof(buf)) == 0 ==> p.onDeck == old(p.onDeck) && scanM(p) == old(scanM(p))
